@@ -221,7 +221,9 @@ class ForLoopPulseTemplate(LoopPulseTemplate, MeasurementDefiner, ParameterConst
         sum_stop = sum_start + (sympy.functions.Max(step_count, 1) - 1)
 
         for c in body_integrals:
-            channel_integral_expr = sympy.Sum(body_integrals[c], (sum_index, sum_start, sum_stop))
+            # an empty range (step_count <= 0) contributes nothing, as in `duration`
+            channel_integral_expr = sympy.Piecewise((0, step_count <= 0),
+                                                    (sympy.Sum(body_integrals[c], (sum_index, sum_start, sum_stop)), True))
             body_integrals[c] = ExpressionScalar(channel_integral_expr)
 
         return body_integrals
